@@ -493,6 +493,7 @@ func c01Workload(r *ev.Run, s *sutc.SUT, seed int64, nconns, npipes int, label s
 							if g, gerr := s.Goroutines(); gerr == nil {
 								w["proxy_goroutines_at_first_missing_reply"] = truncStr(g, 60000)
 							}
+							w["simulator_goroutines_at_first_missing_reply"] = truncStr(extractStacks(allStacks(), "internal/fakecluster", 40), 40000)
 						}
 						r.Violation(key, fmt.Sprintf("connection %d: no (parsable) reply for request %d of pipeline: %v", connID, k, err), w)
 						bad = true
